@@ -68,6 +68,27 @@ def data_type(tname: str) -> str:
     return bt if bt in HYPHEN_DATA_TYPES else tname
 
 
+def alias_texts():
+    """cell texts that some alias table of the pipeline treats specially (data read from the implementation's tables):
+    the yes/no/true/false spellings of aliases.BINDING_CONVERSIONS and aliases.yes_no, plus numbers-as-text"""
+    from pyxform import aliases
+
+    out = list(aliases.BINDING_CONVERSIONS) + [k for k in aliases.yes_no if isinstance(k, str)] + ["1", "0", "5", "true()", "false()", "yes()"]
+    seen, res = set(), []
+    for x in out:
+        if x and x not in seen:
+            seen.add(x)
+            res.append(x)
+    return res
+
+
+def bind_conv(v):
+    """what xml_bindings writes for a convertible bind attribute (table data of the implementation)"""
+    from pyxform import aliases
+
+    return aliases.BINDING_CONVERSIONS.get(v, v)
+
+
 def image_default(tname, d):
     """harness copy of xls2json.process_image_default (photo rows only)"""
     if tname == "photo" and d and "jr://images/" not in d:
@@ -134,6 +155,8 @@ class Gen:
         k = rng.random()
         if k < 0.12 and ref_names:
             return "ref", rng.choice(REF_TEMPLATES) % rng.choice(ref_names)
+        if k < 0.17 and k >= 0.15:
+            return "alias", rng.choice(alias_texts())
         if k < 0.15:
             import c10_lexgen
 
@@ -162,10 +185,14 @@ class Gen:
         if tname == "calculate":
             if rng.random() < 0.8 or not q["default"]:
                 q["calc"] = rng.choice(["1 + 1", "now()", "'x'", "concat('a', 'b')", "5"] + (["${%s} + 1" % rng.choice(ref_names)] if ref_names else []))
+                if rng.random() < 0.25:
+                    q["calc"] = rng.choice(alias_texts())
             if rng.random() < 0.03:
                 q["calc"] = ""
         elif rng.random() < 0.1:
             q["calc"] = rng.choice(["1 + 1", "now()", "'x'"] + (["${%s}" % rng.choice(ref_names)] if ref_names else []))
+            if rng.random() < 0.25:
+                q["calc"] = rng.choice(alias_texts())
             if rng.random() < 0.5:
                 q["labelled"] = False
         return q
